@@ -552,7 +552,9 @@ func c10Case(w *core.W, j int) {
 	}
 	// public keys that cannot be keys of the algorithm
 	modk("key.PublicKey-truncated", func(kk *dns.DNSKEY) { kk.PublicKey = base64.StdEncoding.EncodeToString(rawKey[:len(rawKey)-1]) })
-	modk("key.PublicKey-extended", func(kk *dns.DNSKEY) { kk.PublicKey = base64.StdEncoding.EncodeToString(append(append([]byte{}, rawKey...), 0)) })
+	modk("key.PublicKey-extended", func(kk *dns.DNSKEY) {
+		kk.PublicKey = base64.StdEncoding.EncodeToString(append(append([]byte{}, rawKey...), 0))
+	})
 	modk("key.PublicKey-empty", func(kk *dns.DNSKEY) { kk.PublicKey = "" })
 	modk("key.PublicKey-one-octet", func(kk *dns.DNSKEY) { kk.PublicKey = base64.StdEncoding.EncodeToString(rawKey[:1]) })
 	// RRset alterations
